@@ -32,6 +32,10 @@ import (
 // If it is impossible to redefine the function according to the given
 // constraints, an error will be returned.
 func (f *Func) Redefine(opts ...Arg) (*Func, error) {
+	// The returned function keeps using these options every time it is
+	// called, so take a copy: the caller is free to reuse its slice.
+	opts = append([]Arg(nil), opts...)
+
 	// First we check the outputs since we currently only error if the outputs
 	// do not match the filter. In the future, we'll do conversions here too.
 	if err := f.redefineOutputs(opts...); err != nil {
